@@ -7,39 +7,10 @@
    Decides the limiter part of C15 (BucketBound): the lazy bucket equals the eager one that adds
    `refill` at every interval boundary (capped at max), hence over any window it admits at most the
    balance at the window's start plus refill per boundary crossed.                                *)
-EXTENDS Naturals, TLC
+EXTENDS LeakyBucketOps, TLC
 
-CONSTANTS BIG,        \* clamp class (a number larger than every small value used)
-          NoInit,     \* "initial balance not given" (a number different from every other initial)
-          Refills, Intervals, Maxes, Initials,   \* parameter values explored by the model checker
+CONSTANTS Refills, Intervals, Maxes, Initials,   \* parameter values explored by the model checker
           MaxT, MaxOps
-
-Min(a, b) == IF a <= b THEN a ELSE b
-SatAdd(a, b) == IF a >= BIG \/ b >= BIG \/ a + b >= BIG THEN BIG ELSE a + b
-SatMul(a, b) == IF a = 0 \/ b = 0 THEN 0 ELSE IF a >= BIG \/ b >= BIG \/ a * b >= BIG THEN BIG ELSE a * b
-Dec(a) == IF a >= BIG THEN BIG ELSE a - 1
-
-\* LeakyBucketRateLimiter::new  (deadline BIG = None: Instant::now().checked_add(Duration::MAX))
-New(refill, interval, max, initial, now) ==
-  [refill |-> refill, interval |-> interval, max |-> max,
-   balance |-> Min(IF initial = NoInit THEN max ELSE initial, max),
-   dl |-> IF interval >= BIG THEN BIG ELSE now + interval]
-
-\* fn refresh(&mut self, now)
-Refresh(b, now) ==
-  IF b.dl >= BIG \/ now < b.dl THEN b
-  ELSE IF b.interval = 0
-    THEN [b EXCEPT !.balance = Min(SatAdd(@, b.refill), b.max), !.dl = now]
-    ELSE LET since == now - b.dl
-             periods == (since \div b.interval) + 1
-             tokens == SatMul(periods, b.refill)
-         IN [b EXCEPT !.balance = Min(SatAdd(@, tokens), b.max),
-                      !.dl = now + (b.interval - (since % b.interval))]
-\* fn check(&mut self) -> bool: the limiter after the call; the result is  .balance > 0
-Check(b, now) == Refresh(b, now)
-CheckOk(b, now) == Refresh(b, now).balance > 0
-\* fn bump(&mut self)
-Bump(b) == IF b.balance > 0 THEN [b EXCEPT !.balance = Dec(@)] ELSE b
 
 -----------------------------------------------------------------------------
 (* Closed system for the model checker: time passes, jobs are routed (check, bump on success). *)
